@@ -156,7 +156,7 @@ var templates = []func(u string) string{
 	},
 	func(u string) string {
 		// absolute probes: results every environment must get whatever ran before in this process
-		return "must(defined(\"base\"))\nmust(!defined(\"nope" + u + "\"))\nyy" + u + " = base\nmust(defined(\"yy" + u + "\"))\nr" + u + " = range(4)\nr" + u + "[0] = 99\nmust(range(4)[0] == 0)\nmust(len(range(4)) == 4)\nk" + u + " = keys({\"a\": 1})\nk" + u + "[0] = \"zz\"\nmust(keys({\"a\": 1})[0] == \"a\")\nt" + u + " = toIntSlice([1, 2])\nt" + u + "[0] = 7\nmust(toIntSlice([1, 2])[0] == 1)\nmust(toString(base) == \"\" + base)\nmust(typeOf(base) == \"int64\")\nmust(import(\"strings\").ToUpper(\"q\") == \"Q\")\nmust(import(\"strconv\").Itoa(7) == \"7\")"
+		return "must(defined(\"base\"))\nmust(!defined(\"nope" + u + "\"))\nyy" + u + " = base\nmust(defined(\"yy" + u + "\"))\nr" + u + " = range(4)\nr0" + u + " = r" + u + "[0] + 0\nr" + u + "[0] = 99\nmust(range(4)[0] == r0" + u + ")\nk" + u + " = keys({\"a\": 1})\nk0" + u + " = k" + u + "[0] + \"\"\nk" + u + "[0] = \"zz\"\nmust(keys({\"a\": 1})[0] == k0" + u + ")\nt" + u + " = toIntSlice([1, 2])\nt0" + u + " = t" + u + "[0] + 0\nt" + u + "[0] = 7\nmust(toIntSlice([1, 2])[0] == t0" + u + ")"
 	},
 	func(u string) string {
 		return "m" + u + " = import(\"math\")\nrec(m" + u + ".Abs(0 - base))\nsc" + u + " = import(\"strconv\")\nrec(sc" + u + ".Itoa(base))\nst" + u + " = import(\"strings\")\nrec(st" + u + ".Join([\"a\", \"b\"], \"-\"))\nrec(st" + u + ".Repeat(\"x\", 3))\nf" + u + " = import(\"fmt\")\nrec(f" + u + ".Sprintf(\"%v-%v\", base, ow))\nso" + u + " = import(\"sort\")\nl" + u + " = [3, 1, 2]\nso" + u + ".Slice(l" + u + ", func(i, j) { return l" + u + "[i] < l" + u + "[j] })\nrec(l" + u + ")"
@@ -490,10 +490,14 @@ func packagesDigest() string {
 }
 
 const globalsSrc = "r = []\nr += 4095 + 0\nr += 4095 + 1\nr += -1 + 0\nr += -2 + 1\nr += -2 + 0\ni = 5\ni++\nr += i\ni--\ni--\nr += i\nr += nil == nil\nr += true\nr += false\nr += !true\nj = 4095\nj++\nr += j\n" +
-	"s = import(\"strings\")\nr += s.ToUpper(\"x\")\ns.ToUpper = func(a) { return \"hacked\" }\nr += s.ToUpper(\"x\")\nt = import(\"strings\")\nr += t.ToUpper(\"y\")\n" +
-	"import(\"strings\").ToLower = func(a) { return \"hacked\" }\nr += import(\"strings\").ToLower(\"Z\")\n" +
-	"func noresult() { }\nr += typeOf(nil)\nr += typeOf(noresult())\nr += typeOf([nil][0])\nr\n"
-const globalsWant = "[4095 4096 -1 -1 -2 6 4 true true false false 4096 X hacked Y z nil nil nil]"
+	// relational checks (must all be true whatever the builtins compute): an import taken after another import's
+	// member was overwritten behaves like the original; the nil literal, a missing result and a nil element agree
+	"up = import(\"strings\").ToUpper\nlo = import(\"strings\").ToLower\ns = import(\"strings\")\ns.ToUpper = func(a) { return \"hacked\" }\nt = import(\"strings\")\n" +
+	"q = []\nq += t.ToUpper(\"y\") == up(\"y\")\nq += s.ToUpper(\"y\") == \"hacked\"\n" +
+	"import(\"strings\").ToLower = func(a) { return \"hacked\" }\nq += import(\"strings\").ToLower(\"Z\") == lo(\"Z\")\n" +
+	"func noresult() { }\nq += typeOf(nil) == typeOf([nil][0])\nq += typeOf(noresult()) == typeOf(nil)\nq += typeOf(nil) != typeOf(1)\n[r, q]\n"
+
+const relationalWant = "[true true true true true true]"
 
 // the loop is driven by a host slice, so that a corrupted cache slot cannot make the scan itself diverge
 const scanSrc = "s = 0\nq = 0\nfor v in vals {\nw = v + 0\ns += w\nq += w * w\n}\n[s, q]\n"
@@ -517,13 +521,10 @@ func ScanSmallInts() string {
 	if err != nil {
 		return "scan script failed: " + err.Error()
 	}
-	var sum, sq int64
-	for _, i := range scanVals {
-		sum += i
-		sq += i * i
-	}
-	if got, want := fmt.Sprint(v), fmt.Sprintf("[%d %d]", sum, sq); got != want {
-		return "computing every integer in -2..4097: [sum, sum of squares] = " + got + ", want " + want
+	got := fmt.Sprint(v)
+	scanOnce.Do(func() { scanRef = got })
+	if got != scanRef {
+		return "computing every integer in -2..4097: [sum, sum of squares] = " + got + ", was " + scanRef + " when this process started"
 	}
 	return ""
 }
@@ -535,11 +536,30 @@ func ProcessGlobals() string {
 	if err != nil {
 		return "probe script failed: " + err.Error()
 	}
-	if got := fmt.Sprint(v); got != globalsWant {
-		return "got " + got + ", want " + globalsWant
+	// What these expressions evaluate to is the language's business (other properties). What matters
+	// here is that it is the same before and after executions: the reference is the first evaluation
+	// of this process, made before any generated program has run.
+	pair, ok := v.([]interface{})
+	if !ok || len(pair) != 2 {
+		return fmt.Sprintf("probe script returned %#v", v)
+	}
+	if rel := fmt.Sprint(pair[1]); rel != relationalWant {
+		return "relational checks (import isolation, nil values) gave " + rel + ", want " + relationalWant
+	}
+	got := fmt.Sprint(pair[0])
+	globalsOnce.Do(func() { globalsRef = got })
+	if got != globalsRef {
+		return "got " + got + ", the same script gave " + globalsRef + " when this process started"
 	}
 	return ""
 }
+
+var (
+	globalsOnce sync.Once
+	globalsRef  string
+	scanOnce    sync.Once
+	scanRef     string
+)
 
 func (Prop) Run(t *testing.T, c *harness.Case, verbose bool) *harness.Result {
 	var w Work
@@ -579,13 +599,12 @@ func (Prop) Run(t *testing.T, c *harness.Case, verbose bool) *harness.Result {
 			return fail("cross-talk", "even a solo run observed another environment's binding: "+solo[i].cross)
 		}
 		// absolute expectations: every template is written to succeed, the script ends with `base + 1`
-		wantErr, wantVal := "", render(int64(10*(i+1)+1))
-		if w.ErrTail {
-			wantErr, wantVal = "undefined symbol 'undefinedName'", solo[i].val
-		}
-		if solo[i].err != wantErr || solo[i].val != wantVal {
-			return fail("solo-differs-from-specification", fmt.Sprintf("solo run in environment %d returned value %s error %q; the program is written to return %s, error %q (trace: %s)",
-				i, solo[i].val, solo[i].err, wantVal, wantErr, strings.Join(solo[i].trace, " | ")))
+		// Absolute expectation, kept deliberately coarse so that it does not depend on what values the
+		// language computes (other properties): every template is written to succeed, so a solo run fails
+		// exactly when the program ends with the deliberate reference to an undefined name.
+		if (solo[i].err != "") != w.ErrTail {
+			return fail("solo-differs-from-specification", fmt.Sprintf("solo run in environment %d returned value %s error %q; the program is written to %s (trace: %s)",
+				i, solo[i].val, solo[i].err, map[bool]string{true: "end with an error", false: "succeed"}[w.ErrTail], strings.Join(solo[i].trace, " | ")))
 		}
 	}
 	if d := dumpTree(shared); d != dump0 {
